@@ -12,6 +12,8 @@ mod native;
 mod tables;
 #[cfg(feature = "physics")]
 mod phys;
+#[cfg(feature = "physics")]
+mod evt;
 
 fn main() {
     let args: Vec<String> = std::env::args().collect();
